@@ -31,6 +31,13 @@ def _clear_caches():
                     pass
 
 
+def _all_validator_classes(klass):
+    out = list(type.__subclasses__(klass))
+    for sub in list(out):
+        out.extend(_all_validator_classes(sub))
+    return out
+
+
 def main(argv):
     repo, batch_path = argv[1], argv[2]
     full = len(argv) > 3 and argv[3] == "full"
@@ -51,11 +58,9 @@ def main(argv):
         batch = json.load(fh)
     out = {
         "keyword_order": list(set(COMPOSITION_KEYWORDS) - {"not"}),
+        # a digest of the address layout: iteration order of a set of classes
         "validator_order": _sha(
-            ",".join(
-                c.__name__
-                for c in validation._all_subclasses(validation.Validator)
-            )
+            ",".join(c.__name__ for c in set(_all_validator_classes(validation.Validator)))
         )[:12],
         "hashseed": __import__("os").environ.get("PYTHONHASHSEED"),
         "docs": {},
